@@ -362,6 +362,16 @@ class SetV(ListV):
     __slots__ = ()
 
 
+class GenV(Obj):
+    """A generator expression bound to a name: consumed once, `next()` advances it.  (A generator expression that is
+    consumed where it is written -- tuple(...), max(...), any(...) -- is represented by the tuple of its items.)"""
+    __slots__ = ("src", "taken", "exhausted", "uid")
+
+    def __init__(self, src):
+        self.src, self.taken, self.exhausted = src, 0, False
+        self.uid = next(_ids)
+
+
 class StreamV(Obj):
     """kind 'param': the caller's sink/source. kind 'local': io.BytesIO() allocated at `site`."""
     __slots__ = ("kind", "site", "uid", "init", "closed")
@@ -447,6 +457,8 @@ def term_of(v):
         return ("stream", v.uid)
     if isinstance(v, MissingType):
         return ("MISSING",)
+    if isinstance(v, GenV):
+        return ("gen", term_of(v.src), v.taken)
     if isinstance(v, ListV):
         return ("list", v.uid)
     if isinstance(v, DictV):
